@@ -70,7 +70,8 @@ def make_scenario(spec, seed, idx):
     if r.random() < 0.2:
         knobs['istring'] = r.choice((1, 4, 255))
     scen = {'config': 'fault-free', 'variant': variant,
-            'pad': r.choice(('3CJ', 'ABZ', '00Q9', 'zz7', 'GDX1YZ')),
+            'pad': r.choice(('3CJ', 'ABZ', '00Q9', 'zz7', 'GDX1YZ', '\u00e9BJ', '\u00e98K', '\u00f14Q', '\u4e2d6Z', 'B8J', '64K')),
+            'device_id': r.choice(('28e9:0189', '28e9:0189', '28E9:0189', '0x28e9:0x0189', '28e9:189', '028E9:00189')),
             'fw': {'len': n, 'kind': r.choice(('random', 'random', 'random', 'mixed', 'zeros', 'ff', 'suffix')), 'seed': r.randrange(1 << 30)},
             'init': {'kind': r.choice(('ff', 'random', 'old', 'zeros')), 'seed': r.randrange(1 << 30)},
             'start_error': r.choice((0, 0, 0, r.randint(1, 15))),
